@@ -87,6 +87,13 @@ def generate(tier, rng):
              'names': ['uniform', 'apfl'] if tier == 'quick' else ['fed_avg', 'agnostic', 'hyp_cluster', 'apfl', 'rotated', 'uniform_arith']}
 
 
+  # cohorts at and around powers of two (size-driven chunking): tiny payloads, reduced protocol, oracle only
+  sizes = [257] if tier == 'quick' else [255, 256, 257, 1023, 1025, 4097]
+  for n in sizes:
+    for name in (['uniform'] if tier == 'quick' or n > 1100 else ['uniform', 'fed_avg', 'apfl']):
+      hp = dict(_hp_grid(name, 'quick', rng)[0])
+      yield {'name': name, 'hp': hp, 'pop': _POP, 'rounds': [list(range(n))[::-1], [n // 2, 0], list(range(n)), [1]],
+             'branch': 0, 'seed': rng.randrange(1000), 'ser': 'pickle', 'fresh': False, 'forms': _FORMS[1], 'big': True}
   # ACROSS interpreter processes: the same histories in child processes with other PYTHONHASHSEEDs, and a
   # state handed over through save_state / load_state to a new process
   if tier != 'search':
@@ -111,6 +118,8 @@ def _generate_base(tier, rng):
         hist = _history(rng, len(_POP), rounds)
         if i == 0:      # hand-made: the empty client participates; a client repeats in consecutive rounds; an EMPTY cohort
           hist = [[4, 0], [1, 0], [], [2, 4], [3, 0, 1]] + hist[5:]
+        if i == 1:      # the whole population at once, a single client, a client coming back after a round without it
+          hist = [[3, 0, 5, 1, 4, 2], [2], [0, 5], [2, 3], [0]] + hist[5:]
         forms = _FORMS[i % len(_FORMS)]
         if name in AGGS:
           forms = dict(forms, clients=['list', 'gen', 'tuple', 'iter'][i % 4], dtype=['float32', 'float16', 'float32', 'bfloat16'][i % 4])
@@ -118,8 +127,17 @@ def _generate_base(tier, rng):
         if name in ('fed_avg', 'fed_prox', 'hyp_cluster') and i % 6 == 4:
           hp_i['sopt'] = 'ign'        # a wrapped (composed) server optimizer
         pop = _POP
+        if name not in AGGS:
+          # container kind of the params (tree structure of the result must equal the input's) and memory layouts
+          if i % 3 == 2:
+            hp_i['ptree'] = ['tuple', 'nt', 'flatmap', 'none', 'list'][(i // 3 + ALGS.index(name)) % 5]
+            lays = ['F', 'T', 'skip', 'neg', 'col', 'ro']      # byte-swapped dtypes are rejected by jax.jit itself (TypeError)
+            pop = [dict(s, lay=lays[(j + i) % 6]) for j, s in enumerate(_POP)]
+            hp_i['playout'] = lays[(i // 3) % 6]
+        else:
+          forms = dict(forms, plv=(i % 3 == 2), w=('one' if i % 5 == 4 else forms['w']))
         if name not in AGGS and i % 6 == 5:
-          pop = [dict(s, nan=(j == 2)) for j, s in enumerate(_POP)]     # client 2 holds a NaN label
+          pop = [dict(s, nan=(j == 2)) for j, s in enumerate(pop)]     # client 2 holds a NaN label
         if name not in AGGS and tier != 'quick' and i % 8 in (3, 7):
           hp_i['backend'] = 'debug' if i % 8 == 3 else 'pmap'
         if name in ('fed_avg', 'apfl') and tier == 'quick' and i == 3:
@@ -221,7 +239,7 @@ def _id(case, i):
 def _clients_for(case, rnd, datasets):
   f = _forms(case)
   rng = (lambda k: np.asarray(k)) if f['rng'] == 'np' else (lambda k: k)
-  return [(_id(case, i), datasets[i], rng(tiny.client_rng(case['seed'], rnd, i))) for i in case['rounds'][rnd]]
+  return [(_id(case, i), datasets[i % len(datasets)], rng(tiny.client_rng(case['seed'], rnd, i))) for i in case['rounds'][rnd]]
 
 
 def _deliver(case, base):
@@ -239,9 +257,15 @@ def _agg_clients(case, rnd):
   dt = {'float32': jnp.float32, 'float16': jnp.float16, 'bfloat16': jnp.bfloat16}[f.get('dtype', 'float32')]
   for j, i in enumerate(case['rounds'][rnd]):
     p = tiny.init_params(i)
-    p = jax.tree_util.tree_map(lambda l: jnp.asarray(l * (1 + rnd) + 0.125 * i, dt), p)
-    p['lin']['m'] = jnp.asarray([[0.5 * i, -1.0, 0.25], [2.0, 0.0, 1.5 * (rnd + 1)]], dt)
-    w = float(sum(case['pop'][i]['cnt']) + 1)
+    p = jax.tree_util.tree_map(lambda l: jnp.asarray(l * (1 + rnd) + 0.125 * (i % 7), dt), p)
+    p['lin']['m'] = jnp.asarray([[0.5 * (i % 5), -1.0, 0.25], [2.0, 0.0, 1.5 * (rnd + 1)]], dt)
+    p['lin']['s'] = jnp.asarray([0.25 * (i % 3) - 0.5], dt)            # a size-1 leaf
+    if f.get('plv') and dt == jnp.float32:      # the client's params as numpy arrays in non-default layouts
+      lays = ['F', 'T', 'skip', 'neg', 'col', 'ro']      # byte-swapped dtypes are rejected by jax.jit itself (TypeError)
+      p = {'lin': {k: tiny.relayout(np.asarray(v), lays[(j + i) % 6]) for j, (k, v) in enumerate(sorted(p['lin'].items()))}}
+    w = float(sum(case['pop'][i % len(case['pop'])]['cnt']) + 1)
+    if f['w'] == 'one':
+      w = 1.0
     if f['w'] == 'np':
       w = np.float32(w)
     elif f['w'] == 'jnp':
@@ -377,7 +401,7 @@ def run(case):
                                        and not tiny.writes(conts))
       if name == 'hyp_cluster':
         ids = [int(np.asarray(d1[_id(case, i)]['cluster_id'])) for i in case['rounds'][r]]
-        sizes = [sum(case['pop'][i]['cnt']) for i in case['rounds'][r]]
+        sizes = [sum(case['pop'][i % len(case['pop'])]['cnt']) for i in case['rounds'][r]]
         ro['assign'] = ids
         ro['live'] = [any(a == k and n > 0 for a, n in zip(ids, sizes)) for k in range(hp.get('K', 2))]
       if name == 'apfl':
@@ -385,8 +409,21 @@ def run(case):
         eb, ec = tiny.snapshot(s1), tiny.containers(s1)
         list(tiny.apfl_eval()(s1, [(_id(case, i), d) for i, d in enumerate(datasets)]))
         ro['eval_state_same'] = tiny.same_snapshot(eb, tiny.snapshot(s1)) and not tiny.writes(ec)
+      # the container kinds of the params survive the round (tuple / NamedTuple / FlatMap / None sub-tree ...)
+      import jax as _jax
+      if not is_agg:
+        ps_in = state.cluster_params if name == 'hyp_cluster' else [state.params]
+        ps_out = s1.cluster_params if name == 'hyp_cluster' else [s1.params]
+        ro['structure_same'] = len(ps_in) == len(ps_out) and all(
+            _jax.tree_util.tree_structure(a) == _jax.tree_util.tree_structure(b) for a, b in zip(ps_in, ps_out))
+      # the same values in plain C-contiguous arrays give the same bits
+      if r == 0 and not is_agg and any(s.get('lay') for s in case['pop']):
+        plain = [tiny.client_dataset({k: v for k, v in s.items() if k != 'lay'}) for s in case['pop']]
+        hp0 = {k: v for k, v in hp.items() if k != 'playout'}
+        sp, dp = _call(name, obj, tiny.init_state(name, hp0, obj), _clients_for(case, 0, plain), is_agg)
+        ro['layout_same'] = _same_out(o1, sp, dp)
       ro['nclients'] = len(clients)
-      ro['trained_examples'] = 0 if is_agg else sum(sum(case['pop'][i]['cnt']) for i in case['rounds'][r])
+      ro['trained_examples'] = 0 if is_agg else sum(sum(case['pop'][i % len(case['pop'])]['cnt']) for i in case['rounds'][r])
       obs['rounds'].append(ro)
       # continuation from the serialised copy (2 rounds after the branch point)
       if restored is not None:
@@ -570,6 +607,10 @@ def oracle(case, obs):
       out.append((n + '.not-repeatable', f'{n} round {r}: a second apply() with the same arguments returned a different state / diagnostics'))
     if not ro.get('earlier_call_same', True):
       out.append((n + '.hidden-state', f'{n} round {r}: an earlier call repeated after other calls through the same object returned a different result'))
+    if not ro.get('structure_same', True):
+      out.append((n + '.tree-structure-changed', f'{n} round {r}: the params of the new state do not have the tree structure (container kinds) of the input\'s'))
+    if not ro.get('layout_same', True):
+      out.append((n + '.layout-dependent', f'{n} round {r}: the same values in non-default memory layouts (F-order, strided, read-only, byte-swapped) give different bits'))
     if not ro.get('eval_state_same', True):
       out.append((n + '.eval-mutates-state', f'{n} round {r}: evaluating the personalised models changed the server state it was given'))
     if not ro['first_result_readable']:
@@ -606,7 +647,7 @@ def _slot_desc(kind, row, keys):
 def encode(case, obs):
   if case['name'] in ('flags', 'xproc'):
     return None
-  if obs['err'] or case['hp'].get('backend') or case['hp'].get('sopt') == 'ign':
+  if obs['err'] or case['hp'].get('backend') or case['hp'].get('sopt') == 'ign' or case.get('big'):
     return None     # the scripts model the jit backend of for_each_client (gen/Gen_for_each_client.v: jit_*); debug / pmap, and the ignore-grads server optimizer (which hands the ignored leaf back as the very input object): oracle only
   name = case['name']
   init = fw.clist([_slot_desc(k, row, []) for k, row in obs['init']])
